@@ -44,7 +44,15 @@ def alphabet(seed):
 
 def operator_spellings():
     src = open(os.path.join(vlib.REPO, lex_tables.LEXER_RS), encoding='utf-8').read()
-    return [s for s, _ in lex_tables.operator_list(src)]
+    try:
+        return [s for s, _ in lex_tables.operator_list(src)]
+    except RuntimeError:
+        # the table as written and the table of the compiled code differ (reported by the translator obligation): the cases are
+        # still generated — from the table as written, plus every spelling the compiled code accepts — so that a concrete input shows
+        ops = lex_tables.operator_list_strict(src)
+        from gen import tables_dump
+        d = tables_dump.dump() or {'ops': []}
+        return sorted({s for s, _ in ops} | {s for s, _ in d['ops']})
 
 
 def stream_exhaustive(seed, tier):
@@ -214,6 +222,22 @@ def parse_tokens(result):
     return toks
 
 
+_TABLE = []
+def _table():
+    """(set of (spelling, type), set of types) of the token table as WRITTEN in lexer.rs (the language's table)"""
+    if not _TABLE:
+        try:
+            src = open(os.path.join(vlib.REPO, lex_tables.LEXER_RS), encoding='utf-8').read()
+            try:
+                ops = lex_tables.operator_list_strict(src)
+            except ValueError:
+                ops = lex_tables.operator_list(src)
+            _TABLE.append((set(ops), {t for _, t in ops}))
+        except Exception:
+            _TABLE.append(None)
+    return _TABLE[0]
+
+
 def oracle(text, result):
     """list of C13 violation classes of the implementation's result on `text` ([] = fine)"""
     if not result.startswith('ok'):
@@ -244,6 +268,11 @@ def oracle(text, result):
                 body = tx[n:len(tx) - n]
                 if q * n in body or body.endswith(q):
                     bad.append('literal-runs-past-its-closing-quotes')
+        # operators are classified against the language's token table: a token whose type is one of the table's types carries
+        # exactly a spelling the table gives that type (a partial spelling such as `>.` of `>..` is not a token)
+        tbl = _table()
+        if tbl and ty in tbl[1] and (tx, ty) not in tbl[0]:
+            bad.append('operator-token-not-in-table')
         spans.append((off, off + len(tx), ty))
         off += len(tx)
     # blank line: a run of spaces/tabs/newlines made only of Whitespace/Subexpression tokens with >= 2 newlines
